@@ -14,6 +14,8 @@ CONSTANTS
   SimMode = FALSE
   VarLens = {0}
   VarW = {1, 2, 3}
+  VarBad = {"none"}
+  HistChoices <- HistTwo
 INVARIANT InvWellFormed
 INVARIANT InvTiles
 INVARIANT InvOrdered
